@@ -38,6 +38,8 @@ def one(mid, checks, workers):
             return mid, {"error": "patch does not apply: " + a.stderr[-200:]}
         env = dict(os.environ, VERIF_REPO_SRC=wt + "/src", VERIF_WORKERS=str(workers), VERIF_EVIDENCE_DIR="/dev/shm/mx-evidence-%s" % mid,
                    VERIF_REPLAY_DIR="/dev/shm/mx-replays-%s" % mid)
+        if checks == ["own"]:
+            checks = [json.load(open(os.path.join(SEEDED, mid, "meta.json")))["property"]]
         for c in checks:
             p = sh([os.path.join(VERIF, "check"), c, "--tier", "quick"], cwd=VERIF, env=env, timeout=3600)
             sigs = re.findall(r"^violation signature: (.*)$", p.stdout, re.M)
